@@ -42,10 +42,23 @@ def run(ctx, res):
     facts = ctx["facts"]
     agg = isarun.run(facts.path)
     extra = []
-    if prop in ("C01", "C07", "C20"):
-        extra.append(("fetch summary", isa_extra.check_fetch(facts)))
-    if prop in ("C06", "C08"):
-        extra.append(("interrupt entry", isa_extra.check_interrupt(facts)))
+    for cond_, name_, fn_ in ((prop in ("C01", "C07", "C20"), "fetch summary", isa_extra.check_fetch), (prop in ("C06", "C08"), "interrupt entry", isa_extra.check_interrupt)):
+        if cond_:
+            try:
+                extra.append((name_, fn_(facts)))
+            except RuntimeError as e_:
+                res.errors.append("%s: %s" % (name_, e_))
+    if prop == "C06":
+        # exception entry must read the vector table itself: a cached copy that Bus::write cannot invalidate is a stale vector
+        from rules import c09
+        import cli as _cli
+        r9 = _cli.Result("C09")
+        c09.stale_copies(facts, r9)
+        for f_ in r9.findings:
+            if any(w_ in f_["msg"].split(" ")[0] for w_ in ("interrupt", "trapa", "rte")):
+                res.finding(f_["key"], f_["msg"], f_["witness"], f_["detail"])
+        res.obligations += r9.obligations
+        res.discharged += r9.discharged
     spec.build()
     res.explanation = cfg["what"] + ". Static: nothing of /repo is executed; the traces are abstract (trace partitioning on decode fields, state merging on data branches)."
     res.rule = "for all traces t of Cpu::exec, for all forms F with pc(t) & enc(F) != 0: summary(t) == manual(F) on pc(t) & enc(F) & pre(F)"
